@@ -553,11 +553,14 @@ func (w *world) randomLoop(events int) {
 			}
 			rng.Shuffle(len(free), func(i, j int) { free[i], free[j] = free[j], free[i] })
 			n := 2 + rng.Intn(3)
+			if len(regs) > 20 {
+				n = 2 + rng.Intn(8) // populated worlds: around and beyond the per-description waiting limit (5)
+			}
 			if n > len(free) {
 				n = len(free)
 			}
 			if n >= 2 {
-				w.submitBatch(free[:n], rng.Intn(2) == 0, nil)
+				w.submitBatch(free[:n], rng.Intn(4) != 0, nil)
 			}
 		case "epoch-change-under-waiting":
 			// the region of a waiting operator changes behind its back and pd learns the new epoch
@@ -776,6 +779,9 @@ func main() {
 	stress(r, rng)
 	flushFindings(r)
 
+	for k, v := range maxima {
+		r.Set(k, v)
+	}
 	r.Floor(int64(r.Pick(1500, 10000)))
 	r.Finish()
 }
